@@ -49,6 +49,12 @@ func newSTWorld(rng *rand.Rand) *stWorld {
 	w := &stWorld{keys: map[string]string{}, names: map[string]string{}, raw: map[string][]byte{}, ent: map[string]db.Entity{}}
 	pool := []string{"uuid", "version", "configHash", "a.b", "KEY with space", "ü-key", "k.entity.bak", "x" + strings.Repeat("y", 40)}
 	rng.Shuffle(len(pool), func(i, j int) { pool[i], pool[j] = pool[j], pool[i] })
+	if rng.Intn(3) == 0 {
+		// keys that differ only in characters a file name cannot carry as they are, or in their escapes
+		tw := []string{"Lamp1.serial", "Lamp:1.serial", "Lamp%3A1.serial", "AA:BB:CC.txt", "AABBCC.txt"}
+		rng.Shuffle(len(tw), func(i, j int) { tw[i], tw[j] = tw[j], tw[i] })
+		pool = append(tw[:3], pool...)
+	}
 	for i, k := range []string{"k1", "k2", "k3"} {
 		w.keys[k] = pool[i]
 	}
